@@ -184,7 +184,8 @@ pub fn resolve_issue(w: &World, s: &IssueSpec) -> (Element, Issue) {
     let r = &w.routes[(s.route as usize) % w.routes.len()];
     let n = r.hops.len();
     let (mut isd, mut asn);
-    let pkt = vec![0x42, s.pkt];
+    // the dedup id of an SCMP issue covers the LENGTH of the offending packet only
+    let pkt = vec![0x42; 2 + s.pkt as usize];
     let twist_if = |x: u16| if s.twist == 1 { 0x7777 } else { x };
     match s.kind {
         IssueKindSpec::ExtDown => {
@@ -368,7 +369,14 @@ impl<'w> Sim<'w> {
             _ => FetchResult::NoPathsFound,
         });
         let before = self.drv.fetch_requests();
-        let reason = no_panic("PathSet::maintain", || self.drv.maintain(t))?;
+        let reason = no_panic("PathSet::maintain", || self.drv.maintain(t)).map_err(|mut f| {
+            // the same `expect` is reached from two different situations
+            if f.sig.contains("should have a path available") {
+                f.sig = format!("panic:PathSet::maintain:no-path-after-successful-fetch:{}",
+                    if self.cfg.max_cached == 0 { "max_cached_paths_per_pair=0" } else { "refetched-paths-all-expired" });
+            }
+            f
+        })?;
         self.maintains += 1;
         let fetched = self.drv.fetch_requests() - before;
         ensure!(fetched <= 1, "maintain-fetched-twice", "one maintain() call issued {fetched} fetches");
@@ -506,11 +514,13 @@ impl<'w> Sim<'w> {
             return Ok(());
         }
         let any_comfy = fresh_adm.iter().chain(known.iter()).any(|i| comfy(i));
-        let fresh_has_expired = fresh_adm.iter().any(|i| !live(i));
         let sig = if !any_comfy {
+            // every known valid path is inside min_expiry_threshold: never selected as active
             "no-path-though-valid-known:all-within-expiry-threshold"
-        } else if fresh_has_expired && !no_truncation {
-            "no-path-though-valid-fetched:expired-fetched-path-took-the-cache-slot"
+        } else if !no_truncation {
+            // more routes known than the cache may hold: ranking (which ignores expiry) kept
+            // expired / nearly expired paths and dropped the comfortably valid one
+            "no-path-though-valid-fetched:cache-truncation-kept-(near-)expired-paths"
         } else {
             "no-path-though-valid-known"
         };
@@ -617,7 +627,9 @@ impl<'w> Sim<'w> {
                 self.sends_with_path += 1;
                 let seen: Seen = self.w.see(&p).map_err(|e| Fail::new("returned-path-undecodable", e))?;
                 // --- liveness first: with debug assertions the read APIs would panic on this
-                if seen.expiry_ms <= now_ms {
+                // expired by the spec (raw bytes), or by the manager's own whole-second rule (its
+                // read APIs assert on that in debug builds; at most 0.5 s earlier)
+                if seen.expiry_ms <= now_ms || seen.expiry_ms.div_euclid(1000) <= now_ms.div_euclid(1000) {
                     // did a fetch tick (which drops expired paths) run at or after the expiry?
                     let survived = self.last_fetch_ms.map(|t| t >= seen.expiry_ms).unwrap_or(false);
                     let sig = match (self.focus, survived) {
